@@ -2,8 +2,8 @@
 // ChannelObject::{new,new_with_data,read_value,write_value,copy}), impl Drop for VmGreenThread and the
 // channel branch of process_gray, all on the REAL vm.rs text (module `vm` of the vmk crate).
 //
-// Value SHAPES are concrete (one harness per shape, `Sh`); every leaf (scalar bits + tag, string bytes,
-// variant tag, pc, extra stack slots) is symbolic.  The postconditions are stated against a MODEL of
+// Value SHAPES are concrete (one harness per shape, `Sh`, including the TAG of every scalar leaf); leaf
+// contents (scalar payload bits, string bytes, variant tag, pc, extra stack slots) are symbolic.  The postconditions are stated against a MODEL of
 // the shape (`expect`): a value "has shape sh with leaves lv and every object reachable from it is an
 // element of heap list h".  Original and copy both matching the same model = structural equality;
 // ownership by two disjoint heap lists = pointer-disjointness.
@@ -38,12 +38,27 @@ mod u7 {
         s: [u8; 2],
         tag: u16,
     }
-    fn any_lv() -> Lv {
+    /// a scalar with a CONCRETE tag and symbolic payload bits.  (A symbolic tag makes CBMC's symbolic
+    /// execution of the recursive `match self.1` in deep_copy explore every arm at every level: measured
+    /// > 10 min; with concrete tags the heap contents are constant-propagated and a harness takes seconds.)
+    fn sc(tag: ValueTag) -> Value {
+        let bits: u64 = kani::any();
+        match tag {
+            ValueTag::Bool => Value(bits & 1, ValueTag::Bool),
+            ValueTag::Addr => Value(bits & 0xffff_ffff, ValueTag::Addr),
+            ValueTag::Float => Value(bits, ValueTag::Float),
+            _ => Value(bits, ValueTag::Int),
+        }
+    }
+    const IF: (ValueTag, ValueTag) = (ValueTag::Int, ValueTag::Float);
+    const BA: (ValueTag, ValueTag) = (ValueTag::Bool, ValueTag::Addr);
+    const AI: (ValueTag, ValueTag) = (ValueTag::Addr, ValueTag::Int); // a closure: code address + captured value
+    fn any_lv(tags: (ValueTag, ValueTag)) -> Lv {
         let s0: u8 = kani::any();
         let s1: u8 = kani::any();
         // ASCII only: every such byte string is valid UTF-8 (from_utf8 validation is not under test)
         kani::assume(s0 < 128 && s1 < 128);
-        Lv { e: [any_scalar(), any_scalar()], s: [s0, s1], tag: kani::any() }
+        Lv { e: [sc(tags.0), sc(tags.1)], s: [s0, s1], tag: kani::any() }
     }
     fn ascii(bytes: Vec<u8>) -> String {
         unsafe { String::from_utf8_unchecked(bytes) }
@@ -348,9 +363,9 @@ mod u7 {
     }
 
     // ================================================================ C08.deep_copy.<shape>.post
-    fn copy_post(sh: Sh) {
+    fn copy_post(sh: Sh, tags: (ValueTag, ValueTag)) {
         let (mut a, mut b, _rx) = mk_pair();
-        let lv = any_lv();
+        let lv = any_lv(tags);
         let v = build(sh, &mut a, &lv);
         a.push(v);
         let a_heap0: Vec<Hp> = a.heap_list.clone();
@@ -374,7 +389,7 @@ mod u7 {
             assert!(w == v && b.heap_list.is_empty() && b.heap_size == 0, "scalars: returned unchanged, no allocation");
         }
         // a mutation through one is invisible through the other (real SetField / SetIndex / ArrayPush arms)
-        let nv = any_scalar();
+        let nv = sc(ValueTag::Int);
         kani::assume(nv != lv.e[0] && nv != lv.e[1]);
         let side: bool = kani::any();
         if side {
@@ -408,7 +423,7 @@ mod u7 {
         assert!(Arc::ptr_eq(&cv.data, &cw.data), "the copy refers to the same queue");
         assert!(b.heap_size == heap_bytes(&b.heap_list) && b.heap_size == size_of::<ChannelObject>());
         // "keeps referring to the same channel": a write through the original is read through the copy
-        let x = any_scalar();
+        let x = sc(ValueTag::Int);
         a.push(v);
         a.push(x);
         assert!(a.arm_ChannelWrite());
@@ -426,9 +441,9 @@ mod u7 {
     fn spawn_case(n: usize, s: [Sh; 2]) {
         let (mut a, b, rx) = mk_pair();
         std::mem::forget(b);
-        let bottom = any_scalar();
+        let bottom = sc(ValueTag::Int);
         a.push(bottom);
-        let lv = [any_lv(), any_lv()];
+        let lv = [any_lv(IF), any_lv(BA)];
         let mut v = [bottom, bottom];
         let mut want_nodes = 0;
         let mut i = 0;
@@ -483,7 +498,7 @@ mod u7 {
         std::mem::forget(b);
         assert!(a.arm_ConstructChannel());
         let ch = a.top();
-        let e = any_scalar();
+        let e = sc(ValueTag::Int);
         a.push(e);
         let target: u32 = kani::any();
         assert!(a.arm_SpawnTask(1, ProgramCounter(target)));
@@ -517,14 +532,14 @@ mod u7 {
     fn fifo_one(s1: Sh, s2: Sh) {
         let (mut t, b, _rx) = mk_pair();
         std::mem::forget(b);
-        let bottom = any_scalar();
+        let bottom = sc(ValueTag::Int);
         t.push(bottom);
         assert!(t.arm_ConstructChannel());
         assert!(t.value_stack.len() == 2);
         let ch = t.top();
         let _ = m_chan(ch, &t.heap_list);
         assert!(qlen(ch) == 0, "a new channel is empty");
-        let (l1, l2) = (any_lv(), any_lv());
+        let (l1, l2) = (any_lv(IF), any_lv(BA));
         let v1 = build(s1, &mut t, &l1);
         let v2 = build(s2, &mut t, &l2);
         t.push(ch);
@@ -567,7 +582,7 @@ mod u7 {
         assert!(a.arm_ConstructChannel());
         let cha = a.top();
         let chb = cha.deep_copy(&mut b);
-        let (l1, l2) = (any_lv(), any_lv());
+        let (l1, l2) = (any_lv(IF), any_lv(BA));
         let v1 = build(s1, &mut a, &l1);
         let v2 = build(s2, &mut a, &l2);
         a.push(cha);
@@ -610,7 +625,7 @@ mod u7 {
         let cha = a.top();
         let a_pc: u32 = kani::any();
         a.pc = ProgramCounter(a_pc);
-        let bottom = any_scalar();
+        let bottom = sc(ValueTag::Int);
         b.push(bottom);
         let chb = cha.deep_copy(&mut b);
         b.push(chb);
@@ -632,7 +647,7 @@ mod u7 {
         assert!(a.pc.0 == a_pc && a.value_stack.len() == 1 && a.value_stack[0] == cha && quiet(&a) && a.heap_list.len() == 1);
         assert!(rx.try_recv().is_err());
         // ... and once a value is there the retried read succeeds
-        let x = any_scalar();
+        let x = sc(ValueTag::Int);
         a.push(cha);
         a.push(x);
         assert!(a.arm_ChannelWrite());
@@ -652,7 +667,7 @@ mod u7 {
         assert!(a.arm_ConstructChannel());
         let cha = a.top();
         let chb = cha.deep_copy(&mut b);
-        let lv = any_lv();
+        let lv = any_lv(AI);
         let v = build(sh, &mut a, &lv);
         a.push(cha);
         a.push(v);
@@ -678,7 +693,7 @@ mod u7 {
         let cha = a.top();
         let chb = cha.deep_copy(&mut b);
         b.push(chb);
-        let lv = any_lv();
+        let lv = any_lv(AI);
         let v = build(Sh::Struct2, &mut a, &lv);
         a.push(cha);
         a.push(v);
@@ -714,7 +729,7 @@ mod u7 {
         let cha = a.top();
         let chb = cha.deep_copy(&mut b);
         b.push(chb);
-        let lv = any_lv();
+        let lv = any_lv(AI);
         let v = build(Sh::StructStr, &mut a, &lv);
         a.push(cha);
         a.push(v);
@@ -752,21 +767,26 @@ mod u7 {
             }
         };
     }
-    inst!(copy_scalar, copy_post(Sh::Scalar));
-    inst!(copy_str0, copy_post(Sh::Str0));
-    inst!(copy_str1, copy_post(Sh::Str1));
-    inst!(copy_str2, copy_post(Sh::Str2));
-    inst!(copy_struct2, copy_post(Sh::Struct2));
-    inst!(copy_struct_str, copy_post(Sh::StructStr));
-    inst!(copy_var_scalar, copy_post(Sh::VarScalar));
-    inst!(copy_var_struct, copy_post(Sh::VarStruct));
-    inst!(copy_arr0, copy_post(Sh::Arr(0)));
-    inst!(copy_arr1, copy_post(Sh::Arr(1)));
-    inst!(copy_arr2, copy_post(Sh::Arr(2)));
-    inst!(copy_arr_str, copy_post(Sh::ArrStr));
-    inst!(copy_struct_arr, copy_post(Sh::StructArr));
-    inst!(copy_nest_struct, copy_post(Sh::NestStruct));
-    inst!(copy_nest_arr, copy_post(Sh::NestArr));
+    inst!(copy_scalar_int, copy_post(Sh::Scalar, IF));
+    inst!(copy_scalar_float, copy_post(Sh::Scalar, (ValueTag::Float, ValueTag::Int)));
+    inst!(copy_scalar_bool, copy_post(Sh::Scalar, BA));
+    inst!(copy_scalar_addr, copy_post(Sh::Scalar, AI));
+    inst!(copy_str0, copy_post(Sh::Str0, IF));
+    inst!(copy_str1, copy_post(Sh::Str1, IF));
+    inst!(copy_str2, copy_post(Sh::Str2, IF));
+    inst!(copy_struct2, copy_post(Sh::Struct2, IF));
+    inst!(copy_struct2_ba, copy_post(Sh::Struct2, BA));
+    inst!(copy_closure, copy_post(Sh::Struct2, AI));
+    inst!(copy_struct_str, copy_post(Sh::StructStr, IF));
+    inst!(copy_var_scalar, copy_post(Sh::VarScalar, BA));
+    inst!(copy_var_struct, copy_post(Sh::VarStruct, IF));
+    inst!(copy_arr0, copy_post(Sh::Arr(0), IF));
+    inst!(copy_arr1, copy_post(Sh::Arr(1), IF));
+    inst!(copy_arr2, copy_post(Sh::Arr(2), BA));
+    inst!(copy_arr_str, copy_post(Sh::ArrStr, IF));
+    inst!(copy_struct_arr, copy_post(Sh::StructArr, IF));
+    inst!(copy_nest_struct, copy_post(Sh::NestStruct, IF));
+    inst!(copy_nest_arr, copy_post(Sh::NestArr, IF));
 
     inst!(spawn_0, spawn_case(0, [Sh::Scalar, Sh::Scalar]));
     inst!(spawn_scalar, spawn_case(1, [Sh::Scalar, Sh::Scalar]));
